@@ -849,8 +849,11 @@ pub fn monitor_e(made: &MadeE, l: &mut Local) {
                     }
                     l.act("I2-follows");
                     if !announced_on(e.index, *te, te + FLUX_MS + 2600, Some(&e.ip)) {
+                        // (one history is a listed finding: the address came up together with another address of the same
+                        // interface that the service had held before - an interface that returns renumbered in one family)
+                        let next_to_known = after.difference(&before).any(|o| o.index == e.index && o.ip != e.ip && made.edits[..k].iter().any(|(_, t)| t.iter().any(|i| i.addrs.iter().any(|(a, _)| *a == o.ip))));
                         l.violate(
-                            Violation::new("I2", "I2/automatic-service-not-announced-with-new-address", format!("{} (automatic addresses) was not announced with {} on interface #{} after that address appeared", reg.fullname, e.ip, e.index))
+                            Violation::new("I2", format!("I2/automatic-service-not-announced-with-new-address{}", if next_to_known { "/appeared-next-to-an-address-held-before" } else { "" }), format!("{} (automatic addresses) was not announced with {} on interface #{} after that address appeared", reg.fullname, e.ip, e.index))
                                 .with(json!({"scenario": made.desc, "trace": scen::witness_window(trace, *te, te + FLUX_MS + 2600, 40)})),
                         );
                         return;
